@@ -29,16 +29,20 @@
                                 exactly the coefficients c: the roots of the returned polynomial are the z_i
      arcovar_model_optimal / modcovar_model_optimal
                                 the closed statement for the executed model (lstsq := ls_solve)
+     exponentials_full_rank     p distinct exponentials, non-zero amplitudes, N >= 2p: the data matrix has full
+                                column rank (Vandermonde: transposed system by elimination, synthetic division)
+     covar_exact_recovery / modcovar_exact_recovery
+                                on such data, WITHOUT any rank hypothesis: e = 0, the returned coefficients are those
+                                of the root polynomial, every z_i is a root of the returned polynomial and it has no
+                                other root — the p frequencies are recovered exactly
    NOT PROVED:
-     * full column rank of the data matrix of p distinct exponentials with non-zero amplitudes and
-       N-p >= p (Vandermonde argument) — it is a HYPOTHESIS of the uniqueness / exact-recovery clauses;
      * completeness of ls_solve (returns Some whenever the Gram matrix is non-singular) — exercised by
        the correspondence run only;
      * the Marple fast recursions (arcovar_marple, modcovar_marple) equal the least-squares solution:
        TEST only (search on the implementation against independent normal equations). *)
 Require Import Spectrum.Theory.Ops Spectrum.Theory.Sum Spectrum.Theory.Vec Spectrum.Theory.Order
                Spectrum.Model.Corr Spectrum.Model.Ls
-               Spectrum.Proofs.LsTheory Spectrum.Proofs.CovarTheory Spectrum.Proofs.CovarOpt Spectrum.Proofs.CovarExp Spectrum.Proofs.CovarClosed
+               Spectrum.Proofs.LsTheory Spectrum.Proofs.CovarTheory Spectrum.Proofs.CovarOpt Spectrum.Proofs.CovarExp Spectrum.Proofs.CovarClosed Spectrum.Proofs.CovarVdm
                Spectrum.Instances.QcC Spectrum.Instances.QcCOrd.
 From Coq Require Import QArith Qcanon.
 
@@ -166,6 +170,35 @@ Theorem modcovar_exponentials lstsq tol (x : list F) p q amp z c a e : lstsq_spe
   /\ (mod_full_rank x p -> forall j, (j < p)%nat -> nthF a j = c j).
 Proof. exact (modcovar_exponentials_thm lstsq tol x p q amp z c a e). Qed.
 
+Theorem exponentials_full_rank (x : list F) p (amp z : nat -> F) :
+  (forall t, (t < length x)%nat -> nthF x t = expsum p amp z t) ->
+  (forall i j, (i < j < p)%nat -> z i <> z j) -> (forall i, (i < p)%nat -> amp i <> 0) -> (2 * p <= length x)%nat ->
+  forall c : nat -> F,
+    (forall n, (n < length x - p)%nat -> sumf p (fun j => nthF x (p + n - 1 - j) * c j) = 0) ->
+    forall j, (j < p)%nat -> c j = 0.
+Proof. exact (exp_full_rank_thm x p amp z). Qed.
+
+Theorem covar_exact_recovery lstsq tol (x : list F) p amp z c a e : lstsq_spec lstsq ->
+  (forall t, (t < length x)%nat -> nthF x t = expsum p amp z t) ->
+  (forall i j, (i < j < p)%nat -> z i <> z j) -> (forall i, (i < p)%nat -> amp i <> 0) -> (2 * p <= length x)%nat ->
+  (forall i, (i < p)%nat -> monic_eval p c (z i) = 0) ->
+  arcovar_with lstsq tol x p = Some (a, e) ->
+  e = 0 /\ (forall j, (j < p)%nat -> nthF a j = c j)
+  /\ (forall i, (i < p)%nat -> monic_eval p (nthF a) (z i) = 0)
+  /\ (forall w, monic_eval p (nthF a) w = 0 -> ~ (forall i, (i < p)%nat -> z i <> w)).
+Proof. exact (covar_exact_recovery_thm lstsq tol x p amp z c a e). Qed.
+
+Theorem modcovar_exact_recovery lstsq tol (x : list F) p amp z c a e : lstsq_spec lstsq ->
+  (forall t, (t < length x)%nat -> nthF x t = expsum p amp z t) ->
+  (forall i j, (i < j < p)%nat -> z i <> z j) -> (forall i, (i < p)%nat -> amp i <> 0) -> (2 * p <= length x)%nat ->
+  (forall i, (i < p)%nat -> monic_eval p c (z i) = 0) ->
+  (forall i, (i < p)%nat -> z i * conj (z i) = 1) ->
+  modcovar_with lstsq tol x p = Some (a, e) ->
+  e = 0 /\ (forall j, (j < p)%nat -> nthF a j = c j)
+  /\ (forall i, (i < p)%nat -> monic_eval p (nthF a) (z i) = 0)
+  /\ (forall w, monic_eval p (nthF a) w = 0 -> ~ (forall i, (i < p)%nat -> z i <> w)).
+Proof. exact (modcovar_exact_recovery_thm lstsq tol x p amp z c a e). Qed.
+
 (* ---- the executed model (lstsq := ls_solve): closed statements ---- *)
 Theorem arcovar_model_optimal tol (x : list F) p a e : arcovar tol x p = Some (a, e) ->
   length a = p
@@ -229,5 +262,8 @@ Print Assumptions modcovar_raises.
 Print Assumptions exponentials_annihilated.
 Print Assumptions covar_exponentials.
 Print Assumptions modcovar_exponentials.
+Print Assumptions exponentials_full_rank.
+Print Assumptions covar_exact_recovery.
+Print Assumptions modcovar_exact_recovery.
 Print Assumptions arcovar_model_optimal.
 Print Assumptions modcovar_model_optimal.
